@@ -385,11 +385,19 @@ Section Interp.
            | JObj m => (fix go (m : dict) := match m with [] => [] | (_, x) :: m' => inner x ++ go m' end) m
            | JList l => (fix go (l : list json) := match l with [] => [] | x :: l' => inner x ++ go l' end) l
            | JStr s =>
-               let ks := refs s in
-               ks ++ flat_map (fun k => match lookup k (JObj o) with
-                                        | Found v' => resolve_reads fuel' o v'
-                                        | _ => []
-                                        end) ks
+               (* exactly the keys [resolve] looks up, in the same case analysis *)
+               match s with
+               | [TRef k] =>
+                   k :: match lookup k (JObj o) with Found v' => resolve_reads fuel' o v' | _ => [] end
+               | [TPar p] =>
+                   par_key p :: match lookup (par_key p) (JObj o) with
+                                | Found v' => resolve_reads fuel' o v' | _ => [] end
+               | _ =>
+                   if has_templ s then
+                     (refs s ++ map par_key (pars s)) ++
+                     match subst o s with ROk v' => resolve_reads fuel' o v' | _ => [] end
+                   else []
+               end
            | _ => []
            end) v
     end.
